@@ -113,6 +113,7 @@ pub fn fault_name(f: &Fault) -> &'static str {
         Fault::Write { .. } => "write_error",
         Fault::WriteAfterBytes { .. } => "short_write_then_error",
         Fault::WriteZero { .. } => "write_zero",
+        Fault::Flush { .. } => "flush_error",
         Fault::Closure { after_write: false, .. } => "closure_error",
         Fault::Closure { after_write: true, .. } => "closure_error_after_write",
         Fault::ReadPanic { .. } => "read_panic",
@@ -335,6 +336,14 @@ pub fn enumerate_faults(sc: &StreamScenario, calib: &Run, rng: &mut Rng, cap_pos
             // it is still injected (must be absorbed).
             out.push(vec![Fault::Write { call: k, kind }]);
             out.push(vec![Fault::WriteZero { call: k }]);
+        }
+        // the shipped library never flushes; if a tree under test does, its flushes can fail too
+        for k in positions(calib.flush_calls, rng) {
+            let mut kind = ERR_KINDS[(k + 6) % ERR_KINDS.len()];
+            if kind.is_interrupted() {
+                kind = ErrKind::BrokenPipe; // (nothing retries a failed flush: no "noise" kind here)
+            }
+            out.push(vec![Fault::Flush { call: k, kind }]);
         }
         let b = calib.accepted.len();
         for k in positions(b + 1, rng) {
@@ -606,7 +615,7 @@ fn one_scenario(acc: &mut Acc, job: &Job, idx: u64, sc: &StreamScenario, info: &
                         in_flight = true;
                     }
                 }
-                Fault::Write { .. } | Fault::WriteZero { .. } | Fault::WriteAfterBytes { .. } => {
+                Fault::Write { .. } | Fault::WriteZero { .. } | Fault::WriteAfterBytes { .. } | Fault::Flush { .. } => {
                     in_flight = true;
                 }
                 Fault::Closure { .. } => {
